@@ -428,6 +428,20 @@ func (e *Engine) atomicModel(f *Frame, st *State, callee *ssa.Function, cc *ssa.
 		return nil
 	}
 	switch {
+	case strings.Contains(s, "atomic.Pointer[") && strings.Contains(s, "]).Load"):
+		if cl := cellLoc(); cl != nil {
+			v := Val{T: res, S: e.define("aload", "Int", e.load(st, cl))}
+			e.assumeTyping(st, v)
+			return v, true
+		}
+	case strings.Contains(s, "atomic.Pointer[") && strings.Contains(s, "]).Store"):
+		if cl := cellLoc(); cl != nil {
+			pt, ok := e.ptrTerm(args[1])
+			if ok {
+				e.store(st, cl, pt)
+				return Val{T: res}, true
+			}
+		}
 	case strings.HasSuffix(s, "Bool).Load"):
 		if cl := cellLoc(); cl != nil {
 			return Val{T: res, S: e.define("aload", "Bool", sNot(sEq(e.load(st, cl), e.zero(locType(cl)))))}, true
@@ -543,6 +557,22 @@ func (f *Frame) execGo(in *ssa.Go, st *State) {
 		name = "go " + funcKey(c)
 	}
 	e.siteCall(f, st, name, args, in.Pos())
+	// a spawned closure of this function: its body is executed from a copy of the current state for its run-time
+	// panic obligations only (a panic in any goroutine kills the process); its effects are not merged back
+	var fv *FuncVal
+	if v := f.val(in.Call.Value); v.Fn != nil {
+		fv = v.Fn
+	}
+	if fv != nil && fv.Fn.Parent() != nil && len(fv.Fn.Blocks) > 0 && f.depth < e.maxInline && !f.onStack(fv.Fn) {
+		sub := e.newFrame(fv.Fn, f)
+		sub.label = "@go." + funcKey(fv.Fn)
+		sub.freeVars = fv.Bindings
+		if len(sub.loops) == 0 {
+			cp := st.clone()
+			cp.locks = map[string]bool{} // a new goroutine holds no locks
+			sub.run(cp, args)
+		}
+	}
 }
 
 // ---- site assertions: assert@call NAME#k / assert@store FIELD#k
@@ -573,7 +603,7 @@ func (e *Engine) siteCall(f *Frame, st *State, name string, args []Val, pos toke
 	e.callLog = append(e.callLog, name)
 	for i := range e.C.Sites {
 		sc := &e.C.Sites[i]
-		if sc.Kind != "assert" && sc.Kind != "ghost" {
+		if sc.Kind != "assert" && sc.Kind != "ghost" && sc.Kind != "canary" {
 			continue
 		}
 		if !e.siteMatch(sc.Site, "call", name, ord) {
@@ -631,6 +661,15 @@ func (e *Engine) siteEval(f *Frame, st *State, sc *SiteClause, ctx *EvalCtx, pos
 		e.bindError(e.fname+".assert@"+sc.Site, err)
 		return
 	}
+	if sc.Kind == "canary" {
+		// expected to be refuted while the known finding exists; never part of the verdict
+		if e.knownActive[sc.Var] {
+			o := e.ob(f, "canary@"+strings.ReplaceAll(sc.Site, " ", "_"), "known finding "+sc.Var+" (expected to be refuted) at "+where+": "+sc.Clause.Text, st.cond, g, pos)
+			o.Canary = true
+			o.KnownID = sc.Var
+		}
+		return
+	}
 	e.ob(f, "assert@"+strings.ReplaceAll(sc.Site, " ", "_"), "assertion at "+where+": "+sc.Clause.Text, st.cond, g, pos)
 }
 
@@ -653,7 +692,7 @@ func (e *Engine) siteAsserts(f *Frame, st *State, kind string, l *Loc, v Val, po
 	ord := e.siteOrd[kind+" "+name]
 	for i := range e.C.Sites {
 		sc := &e.C.Sites[i]
-		if sc.Kind != "assert" && sc.Kind != "ghost" {
+		if sc.Kind != "assert" && sc.Kind != "ghost" && sc.Kind != "canary" {
 			continue
 		}
 		if !e.siteMatch(sc.Site, kind, name, ord) {
@@ -731,7 +770,13 @@ func (e *Engine) siteReturn(f *Frame, st *State, in *ssa.Return, vals []Val) {
 	}
 	// ordinal by source position
 	var rets []*ssa.Return
+	if in.Block() == f.fn.Recover {
+		return // the synthetic return of the recover block is not a source-level return
+	}
 	for _, b := range f.fn.Blocks {
+		if b == f.fn.Recover {
+			continue
+		}
 		for _, x := range b.Instrs {
 			if r, ok := x.(*ssa.Return); ok {
 				rets = append(rets, r)
@@ -746,7 +791,7 @@ func (e *Engine) siteReturn(f *Frame, st *State, in *ssa.Return, vals []Val) {
 	}
 	for i := range e.C.Sites {
 		sc := &e.C.Sites[i]
-		if sc.Kind != "assert" {
+		if sc.Kind != "assert" && sc.Kind != "canary" {
 			continue
 		}
 		if !e.siteMatch(sc.Site, "return", "", ord) && sc.Site != fmt.Sprintf("return #%d", ord) && sc.Site != "return #*" && sc.Site != fmt.Sprintf("return#%d", ord) && sc.Site != "return#*" {
